@@ -108,10 +108,40 @@ class Query:
         vs = sorted(self.vars)
         for v in vs:
             lines.append("(declare-fun %s () Real)" % ring.names[v])
+        # sign axioms (true of the reals, still linear arithmetic + boolean structure): monomial = v * rest
+        def name_of(m):
+            if len(m) == 1 and m[0][1] == 1:
+                return ring.names[m[0][0]]
+            nm = mon.get(m)
+            if nm is None:
+                nm = mon[m] = "mono_%d" % len(mon)
+                todo.append(m)
+            return nm
+
+        todo = list(mon)
+        axioms = []
+        done = set()
+        while todo:
+            m = todo.pop()
+            if m in done:
+                continue
+            done.add(m)
+            nm = mon[m]
+            if all(e % 2 == 0 for _, e in m):
+                axioms.append("(assert (>= %s 0.0))" % nm)
+            v, e = m[0]
+            rest = (((v, e - 1),) if e > 1 else ()) + tuple(m[1:])
+            if not rest:
+                continue
+            a, b = ring.names[v], name_of(rest)
+            axioms.append("(assert (=> (and (> %s 0.0) (> %s 0.0)) (> %s 0.0)))" % (a, b, nm))
+            axioms.append("(assert (=> (and (< %s 0.0) (< %s 0.0)) (> %s 0.0)))" % (a, b, nm))
+            axioms.append("(assert (=> (and (> %s 0.0) (< %s 0.0)) (< %s 0.0)))" % (a, b, nm))
+            axioms.append("(assert (=> (and (< %s 0.0) (> %s 0.0)) (< %s 0.0)))" % (a, b, nm))
+            axioms.append("(assert (=> (or (= %s 0.0) (= %s 0.0)) (= %s 0.0)))" % (a, b, nm))
         for m, nm in mon.items():
             lines.append("(declare-fun %s () Real)" % nm)
-            if all(e % 2 == 0 for _, e in m):
-                lines.append("(assert (>= %s 0.0))" % nm)
+        lines += axioms
         lines += body
         lines.append("(check-sat)")
         return "\n".join(lines) + "\n", [ring.names[v] for v in vs]
@@ -139,7 +169,57 @@ def _z3_value(z3, val):
         return None
 
 
+_worker = None
+
+
+def _start_worker():
+    global _worker
+    import sys as _sys
+    _worker = subprocess.Popen([_sys.executable, "-u", os.path.join(os.path.dirname(os.path.abspath(__file__)), "z3worker.py")],
+                               stdin=subprocess.PIPE, stdout=subprocess.PIPE, text=True, bufsize=1)
+    return _worker
+
+
+def _kill_worker():
+    global _worker
+    if _worker is not None:
+        try:
+            _worker.kill()
+            _worker.wait(timeout=5)
+        except Exception:
+            pass
+    _worker = None
+
+
 def run_z3(smt, names, rlimit=20000000, seed=0, timeout_ms=0):
+    """z3 (python API) in a killable worker subprocess: z3 occasionally ignores its own timeout/rlimit inside nlsat/nla;
+    the hard wall-clock limit is timeout_ms + 10 s (default 10 min when no timeout is given). Exceeding it = 'unknown'."""
+    import json as _json
+    import select
+    if os.environ.get("VERIF_Z3_INPROCESS"):
+        return _run_z3_inprocess(smt, names, rlimit, seed, timeout_ms)
+    t0 = time.time()
+    w = _worker if (_worker is not None and _worker.poll() is None) else _start_worker()
+    hard = (timeout_ms / 1000.0 + 10.0) if timeout_ms else 600.0
+    try:
+        w.stdin.write(_json.dumps(dict(smt=smt, rlimit=rlimit, seed=seed, timeout_ms=timeout_ms)) + "\n")
+        w.stdin.flush()
+        rl, _, _ = select.select([w.stdout], [], [], hard)
+        if not rl:
+            _kill_worker()
+            return "unknown", None, time.time() - t0
+        line = w.stdout.readline()
+        if not line:
+            _kill_worker()
+            return "unknown", None, time.time() - t0
+        resp = _json.loads(line)
+        return resp["result"], resp["model"], time.time() - t0
+    except (BrokenPipeError, OSError, ValueError):
+        _kill_worker()
+        return "unknown", None, time.time() - t0
+
+
+def _run_z3_inprocess(smt, names, rlimit=20000000, seed=0, timeout_ms=0):
     z3 = z3mod()
     t0 = time.time()
     s = z3.Solver()
